@@ -996,8 +996,8 @@ impl ReCompiler {
                             sb.push(*ch);
                         }
                         _ => {
-                            // TODO: wrong whitespace
-                            if nesting == 0 && ch.is_ascii_whitespace() {
+                            // XPath F&O 5.6.2: exactly #x9, #xA, #xD and #x20
+                            if nesting == 0 && matches!(ch, '\t' | '\n' | '\r' | ' ') {
                                 // no action
                             } else {
                                 escaped = false;
